@@ -79,7 +79,9 @@ NATIVE = {
     'mutation.Delete': _n.differ('mutation.Delete.glomit', 'ref_mut.delete_ref', _del_cases, mode='method'),
 }
 from contracts import extra as _extra
-BOUNDED = [_extra.bounded_from_text]
+from contracts import extra as _extra2
+from contracts import C01 as _C01
+BOUNDED = [_extra.bounded_from_text, _extra2.bounded_path_composition, _C01.bounded_registered_access]
 ASSUMPTIONS = [
     'G-contract for fetching the parent; opaque user primitives del obj[k] / delattr / registered delete handler (each may raise anything)',
     'Delete.glomit is proved for wildcard-free paths; the wildcard broadcast is the separate contract on _apply_for_each',
